@@ -27,6 +27,9 @@ RULES = {
     'C14.g': 'the replication table emits a bounded number of messages per request: no emission call of an arm lies on a loop '
              '(a loop over a list the client supplied makes the burst as long as the client likes)',
     'C14.d': 'register_pending_opp precedes the send of each fanned-out copy; the rp wrapper sends exactly one ack',
+    'C14.h': 'the gossip of a join stops at nodes that already know the member: the "known member" predicate is the plain key test of '
+             'ClusterState.members (contains_key) — knowledge that can turn false again (a closed link counted as "absent") lets two nodes '
+             'that both hold a dead link to a third re-announce it to each other for as long as it stays down',
 }
 
 
@@ -74,6 +77,7 @@ def run(ck, m):
     single_primary(ck, m)
     link_replies(ck, m)
     table_emits_once(ck, m)
+    known_member_is_a_key_test(ck, m)
 
 
 def _run(ck, m):
@@ -484,3 +488,24 @@ def table_emits_once(ck, m):
                   % (variant, looped), looped[0])
     ck.ob('C14.g', short(rb.id), 'emissions-outside-loops', True, '%d emission calls of the replication table examined' % n, '')
     ck.floor('C14.g', n, 8, 'emission calls in the replication table')
+
+
+
+def known_member_is_a_key_test(ck, m):
+    """C14.h — see RULES"""
+    P = m.prog
+    MM = 'std::collections::HashMap::<std::string::String, nundb::bo::ClusterMember>::'
+    preds = [b for b in P.user_bodies() if b.kind == 'method' and b.locals[0] == 'bool' and b.argc == 2 and core.is_str_ty(b.locals[2])
+             and 'Databases' in b.locals[1] and any(t['f'].get('dargs', '').startswith(MM) and callee_decl(t).split('::')[-1] in ('contains_key', 'get')
+                                                    for _, t in b.calls())]
+    ck.floor('C14.h', len(preds), 1, 'membership predicates (Databases, &String) -> bool over ClusterState.members')
+    for b in preds:
+        roots = core.place_origins(b, {'l': 0}, stop_at_calls=True)
+        ok = bool(roots) and all(r[0] == 'call' and b.term(r[1])['f'].get('dargs', '').startswith(MM + 'contains_key') for r in roots)
+        others = sorted({callee_decl(b.term(r[1])).split('::')[-1] if r[0] == 'call' else r[0] for r in roots
+                         if not (r[0] == 'call' and b.term(r[1])['f'].get('dargs', '').startswith(MM + 'contains_key'))})
+        ck.ob('C14.h', short(b.id), 'known-member-is-a-key-test', ok,
+              'a member is known exactly while its name is a key of ClusterState.members' if ok else
+              'the membership predicate answers from %s, not from the key test alone: a member that is in the map can count as unknown (its link '
+              'is closed), so a `replicate-join` for a node that is down is acted on again by every node that already knows it — each failed '
+              're-link closes the channel again and the secondaries keep sending the join to each other' % others, '%s:%s' % (b.file, b.line))
